@@ -146,8 +146,8 @@ func ruleIterUpdateTable(c *Check, rule string) {
 	}
 	pos := c.P.Pos(fn.Pos())
 	po := 0
-	if fn.Signature.Recv() != nil {
-		po = 1 // a method: the receiver comes first
+	if fn.Signature.Recv() != nil && envMethods[fn] == nil {
+		po = 1 // a method: the receiver comes first (param() already skips it for a method standing for the closure)
 	}
 	itKey, dbKey, dbVal, itEOF, dbEOF := param(fn, po), param(fn, po+1), param(fn, po+2), param(fn, po+3), param(fn, po+4)
 	appendFlag, _ := c.constValue2("github.com/PowerDNS/lmdb-go/lmdb", "Append")
@@ -654,6 +654,11 @@ func ruleUpdateLoop(c *Check, rule string) {
 		if len(nx) != 1 {
 			continue
 		}
+		if p.End == "return" && retIsNilErr(p) && p.State.RelOf("int", nx[0].Res+"#1", "global:io.EOF") != EQ {
+			bad++
+			c.Bad(rule, fnStratUpd+"/early-success", "Update returns successfully although the iterator has not reported io.EOF: the remaining keys of the snapshot are never merged and the transaction still commits", c.pathPos(p), describe(c, p))
+			continue
+		}
 		okn, f := boolCond(p, "isnil("+nx[0].Res+"#1)", -1)
 		if !f {
 			bad++
@@ -769,9 +774,20 @@ func ruleEmptyPut(c *Check, rule string) {
 	if dps == nil {
 		return
 	}
-	nb, badp := 0, 0
+	nb, badp, nEnd := 0, 0, 0
 	for i := range dps {
 		p := &dps[i]
+		if p.End == "return" && retIsNilErr(p) {
+			// the refill ends successfully only when the iterator is exhausted
+			nx := callsOf(p, itNext)
+			if len(nx) == 1 && p.State.RelOf("int", nx[0].Res+"#1", "global:io.EOF") == EQ && len(mutators(p)) == 0 {
+				nEnd++
+			} else {
+				badp++
+				c.Bad(rule, dn+"/early-success", "the refill returns successfully although the iterator has not reported io.EOF: the remaining entries are never written into the emptied DBI", c.pathPos(p), describe(c, p))
+			}
+			continue
+		}
 		if !strings.HasPrefix(p.End, "backedge:") {
 			continue
 		}
@@ -809,8 +825,9 @@ func ruleEmptyPut(c *Check, rule string) {
 		}
 	}
 	if badp == 0 && nb > 0 {
-		c.Ok(rule, dn, fmt.Sprintf("%d continuing iterations: Merge(nil) per key; empty ⇒ skipped, otherwise one Put(key, value)", nb), c.P.Pos(df.Pos()))
+		c.Ok(rule, dn, fmt.Sprintf("%d continuing iterations: Merge(nil) per key; empty ⇒ skipped, otherwise one Put(key, value); %d successful end(s), each on io.EOF", nb, nEnd), c.P.Pos(df.Pos()))
 	}
+	c.Floor(rule, nEnd, 1, "successful ends of doPut")
 }
 
 // ruleNoOwnRejection: a strategy fails only because the iterator or LMDB
